@@ -7,6 +7,9 @@ use std::sync::Arc;
 use std::sync::atomic::{AtomicBool, Ordering};
 use std::task::{Context, Poll, Wake, Waker};
 
+/// Source location of the most recent panic (set by the worker's panic hook).
+pub static LAST_PANIC_LOCATION: std::sync::Mutex<String> = std::sync::Mutex::new(String::new());
+
 pub struct Flag(pub AtomicBool);
 
 impl Wake for Flag {
